@@ -108,7 +108,7 @@ def run_case(case):
                     if len(obl.failed) > n0 and 'C15/iterate-again' not in viol:
                         viol['C15/iterate-again'] = {'signature': 'C15/iterate-again', 'what': obl.failed[n0][0], 'call': [fs_expr, str(lv), 'None'], 'mode': 'list', 'retain': True}
                     # on-demand iterator
-                    for bs_expr in c01.box_selectors(nb, 'quick')[:: (7 if tier == 'quick' else 2)] + ['slice(None,None,None)', repr(list(range(nb))[::-1])]:
+                    for bs_expr in c01.box_selectors(nb, 'quick')[:: (7 if tier == 'quick' else 2)] + ['slice(None,None,None)', repr(list(range(nb))[::-1]), 'slice(None,None,2)', 'slice(1,None,2)', 'slice(None,None,-2)', 'slice(%d,%d,None)' % (nb, nb)]:
                         bsel = eval(bs_expr, {'np': np})
                         bexp = select.boxes_expected(nb, bsel)
                         if bexp is None:
